@@ -61,10 +61,19 @@ def parseFieldW (j : Json) : R (FieldW PVal) := do
            dests := (← strList j "dests").map chars, isSubgroup := ← bool j "is_subgroup",
            init := ← bool j "init", dflt := ← parsePVal (← obj j "dflt"), conv := ← parseConv (← str j "conv") }
 
+partial def parseChildW (j : Json) : R (ChildW PVal) := do
+  let cs ← match j.getObjVal? "children" with
+    | .ok (Json.arr a) => a.toList.mapM parseChildW
+    | _ => pure []
+  return .mk (chars (← str j "name")) (← (← arr j "fields").toList.mapM parseFieldW) cs
+
 def parseDcW (j : Json) : R (DcW PVal) := do
+  let cs ← match j.getObjVal? "children" with
+    | .ok (Json.arr a) => a.toList.mapM parseChildW
+    | _ => pure []
   return { dest := chars (← str j "dest"), dests := (← strList j "dests").map chars, level := ← nat j "level",
            hasParent := ← bool j "has_parent", suppress := ← bool j "suppress", optNone := ← bool j "opt_none",
-           ctor := chars (← str j "ctor"), fields := ← (← arr j "fields").toList.mapM parseFieldW }
+           ctor := chars (← str j "ctor"), fields := ← (← arr j "fields").toList.mapM parseFieldW, children := cs }
 
 def parsePState (j : Json) : R (PState PVal) := do
   let cargs0 ← (← arr j "cargs0").toList.mapM (fun kv => do
